@@ -23,10 +23,12 @@ const MODS: [&str; 20] = [
     // combinations (applied left to right): the short/long decision of `--help` reads several of these
     "arg-hide-pv", "possible-values+arg-hide-pv", "hide-short-help+arg-hide-pv", "hide-long-help+arg-hide-pv", "hide-short-help+possible-values", "hide-short-help+heading",
 ];
-const CMODS: [&str; 12] = [
+const CMODS: [&str; 13] = [
     "none", "next-line-help", "flatten-help", "tmpl-options", "tmpl-positionals", "tmpl-subcommands", "tmpl-all-args", "sub-heading", "before-after", "flatten-equal-display-order", "hide-possible-values",
     // every argument gets the same display order and the second short is the first one's capital
     "equal-order-case-shorts",
+    // the same with a non-ASCII pair (é / É)
+    "equal-order-unicode-case-shorts",
 ];
 
 fn mk_arg(n: usize, shape: &str, m: &str) -> ArgSpec {
@@ -170,6 +172,15 @@ fn mk_cmd(args: Vec<ArgSpec>, cm: &str, width: usize) -> CmdSpec {
             c.set(Setting::FlattenHelp);
         }
         "hide-possible-values" => c.set(Setting::HidePossibleValues),
+        "equal-order-unicode-case-shorts" => {
+            for a in c.args.iter_mut() {
+                a.display_order = Some(0);
+            }
+            if c.args.len() >= 2 && c.args[0].short.is_some() && c.args[1].short.is_some() {
+                c.args[0].short = Some('é');
+                c.args[1].short = Some('É');
+            }
+        }
         "equal-order-case-shorts" => {
             for a in c.args.iter_mut() {
                 a.display_order = Some(0);
@@ -402,7 +413,7 @@ fn cfgs12(max_args: usize) -> Vec<Cfg> {
     }
     if max_args >= 2 {
         // second argument: every shape with a reduced modifier set, command modifier reduced too
-        for cm in ["none", "next-line-help", "flatten-help", "equal-order-case-shorts"] {
+        for cm in ["none", "next-line-help", "flatten-help", "equal-order-case-shorts", "equal-order-unicode-case-shorts"] {
             for &(s, m) in &pairs {
                 for s2 in 0..SHAPES.len() {
                     for m2 in ["none", "hide", "heading", "next-line-help"] {
